@@ -380,26 +380,42 @@ theorem length_suitesTests_expandSuites (parent : Path) : ∀ cs : List SuiteDec
 
 /-! ### the run-level project of a tree -/
 
+/-- a (path, test specification) pair with the rank blanked: the run-level ranks of a suite's tests are `denseRank`s (they
+    depend on the siblings), everything else is `toSpecTest` of the test alone -/
+def noRank (pt : Path × Run.TestSpec) : Path × Run.TestSpec := (pt.1, { pt.2 with rank := 0 })
+
+theorem map_noRank_toSpecTests (p : Path) (ts : List Test) :
+    ((toSpecTests ts).map (fun t => (p ++ [t.name], t))).map noRank =
+    (ts.map (fun t => (p ++ [t.name], t))).map (fun pt => noRank (pt.1, toSpecTest pt.2)) := by
+  unfold toSpecTests
+  simp only [List.map_map]
+  apply List.map_congr_left
+  intro t _
+  simp [noRank, toSpecTest]
+
 open LccModel.Run LccModel.TaskGraph in
 mutual
 theorem testsUnder_toSpec (parent : Path) (inh : Bool) : ∀ s : Suite,
-    testsUnder (flattenSuite parent inh (toSpec s)) = (suiteTests parent s).map (fun pt => (pt.1, toSpecTest pt.2))
+    (testsUnder (flattenSuite parent inh (toSpec s))).map noRank =
+      (suiteTests parent s).map (fun pt => noRank (pt.1, toSpecTest pt.2))
   | .mk h ts subs => by
     rw [toSpec, flattenSuite_eq]
     unfold testsUnder
     rw [List.flatMap_cons]
     have ih := testsUnder_toSpecs (parent ++ [h.name]) (inh || h.disabled.isDisabled) subs
     unfold testsUnder at ih
-    rw [ih, suiteTests, List.map_append]
+    rw [List.map_append, ih, suiteTests, List.map_append]
     congr 1
-    simp [SuiteSpec.tests, List.map_map, toSpecTest]
+    have := map_noRank_toSpecTests (parent ++ [h.name]) ts
+    simpa [SuiteSpec.tests, List.append_assoc] using this
 theorem testsUnder_toSpecs (parent : Path) (inh : Bool) : ∀ ss : List Suite,
-    testsUnder (flattenSuites parent inh (toSpecs ss)) = (suitesTests parent ss).map (fun pt => (pt.1, toSpecTest pt.2))
+    (testsUnder (flattenSuites parent inh (toSpecs ss))).map noRank =
+      (suitesTests parent ss).map (fun pt => noRank (pt.1, toSpecTest pt.2))
   | [] => by rw [toSpecs, flattenSuites_nil, suitesTests]; rfl
   | s :: rest => by
     rw [toSpecs, flattenSuites_cons, suitesTests, List.map_append]
     unfold testsUnder
-    rw [List.flatMap_append]
+    rw [List.flatMap_append, List.map_append]
     have h1 := testsUnder_toSpec parent inh s
     have h2 := testsUnder_toSpecs parent inh rest
     unfold testsUnder at h1 h2
@@ -407,12 +423,20 @@ theorem testsUnder_toSpecs (parent : Path) (inh : Bool) : ∀ ss : List Suite,
 end
 
 open LccModel.Run LccModel.TaskGraph in
+/-- the tests of the run-level project of a tree: path by path `toSpecTest` of the loaded test, up to the rank (which is
+    the order-isomorphic `denseRank` among the siblings) -/
 theorem projTests_projOf (ss : List Suite) (n : Nat) (f st : Bool) :
-    projTests (projOf ss n f st) = (suitesTests [] ss).map (fun pt => (pt.1, toSpecTest pt.2)) := by
+    (projTests (projOf ss n f st)).map noRank = (suitesTests [] ss).map (fun pt => noRank (pt.1, toSpecTest pt.2)) := by
   have := testsUnder_toSpecs [] false ss
   unfold testsUnder at this
   unfold projTests allSuites projOf
   exact this
+
+open LccModel.Run LccModel.TaskGraph in
+theorem projTests_projOf_paths (ss : List Suite) (n : Nat) (f st : Bool) :
+    (projTests (projOf ss n f st)).map (·.1) = (suitesTests [] ss).map (·.1) := by
+  have h := congrArg (List.map (·.1)) (projTests_projOf ss n f st)
+  simpa [List.map_map, noRank, Function.comp_def] using h
 
 end LccModel.Expand
 
